@@ -280,6 +280,26 @@ pub fn size_world() -> World {
     World { opts: 1, ops }
 }
 
+/// Closed world with four contents (so that last, reference and two stale pictures can all differ).
+pub fn closed_world4() -> World {
+    let dc4: [u8; 4] = [40, 100, 160, 220];
+    let hdr = |ptype: u8, tr: u8| Hdr::S(SHdr { version: 1, tr, size: SSize::auto(32, 16), ptype, deblock: false, q: 3, pei: vec![] });
+    let mut ops = vec![];
+    for &tr in &[0u8, 1, 255] {
+        for c in 0..4usize {
+            let m = || Mb::intra_flat(dc4[c]);
+            ops.push(GOp::pic(&format!("I(tr={tr},{c})"), Pic { hdr: hdr(0, tr), mbs: vec![m(), m()] }));
+            ops.push(GOp::pic(&format!("Pa(tr={tr},{c})"), Pic { hdr: hdr(1, tr), mbs: vec![m(), Mb::NotCoded] }));
+            ops.push(GOp::pic(&format!("Pb(tr={tr},{c})"), Pic { hdr: hdr(1, tr), mbs: vec![Mb::NotCoded, m()] }));
+            ops.push(GOp::pic(&format!("Da(tr={tr},{c})"), Pic { hdr: hdr(2, tr), mbs: vec![m(), Mb::NotCoded] }));
+            ops.push(GOp::pic(&format!("Db(tr={tr},{c})"), Pic { hdr: hdr(2, tr), mbs: vec![Mb::NotCoded, m()] }));
+        }
+    }
+    ops.extend(bad_inputs(true));
+    ops.push(GOp::Cleanup);
+    World { opts: 1, ops }
+}
+
 pub fn bad_inputs(sorenson: bool) -> Vec<GOp> {
     let mut v = vec![];
     if sorenson {
@@ -367,6 +387,7 @@ pub fn run(tier: Tier) -> Report {
     if tier.thorough() {
         do_world("sorenson-closed-5tr", &closed_world(true, &[0, 1, 2, 254, 255], 3), None, false);
         do_world("standard-closed-5tr", &closed_world(false, &[0, 1, 2, 254, 255], 3), None, false);
+        do_world("sorenson-closed-4-contents", &closed_world4(), None, false);
         do_world("sorenson-motion-depth6", &motion_world(crate::evidence::seed()), Some(6), true);
     } else {
         do_world("sorenson-motion-depth3", &motion_world(crate::evidence::seed()), Some(3), true);
